@@ -170,6 +170,11 @@ func RunIsolated(ch *Check, c *Ctx, onlyScenario string) {
 	var wg sync.WaitGroup
 	var keepMu sync.Mutex
 	for ji, j := range jobs {
+		if c.NumViolations() >= 3 {
+			// enough witnesses: do not spend the remaining budget on a tree that is already refuted
+			c.Count("jobs.skipped_after_3_violation_keys", 1)
+			continue
+		}
 		wg.Add(1)
 		sem <- struct{}{}
 		go func(ji int, j job) {
